@@ -10,25 +10,46 @@
 (* for the largest attainable u below t - d, and must not index past the   *)
 (* key list.  NarrowMargin = TRUE replaces the window margin               *)
 (* ceil(error_max + 0.5) by round(error_max) (negative control).           *)
+(* OffsetWindow = TRUE carries the window to the next granularity in the   *)
+(* OFFSET integer units of the previous one, as originally coded (the row  *)
+(* offsets -floor(min/g) are not ten times the previous ones, so the       *)
+(* window is displaced by up to 9 M units: negative control); FALSE is the *)
+(* repaired iterator, which keeps the window free of offsets.              *)
 (***************************************************************************)
 EXTENDS Tfm, TLC
 
-CONSTANTS MaxM, CellVals, NarrowMargin
+CONSTANTS MaxM, CellVals, NarrowMargin, OffsetWindow, G,      \* G: cells are in units of 1/G
+          K                                                 \* alphabet size incl. the wildcard column
+
+\* cell sets with negative entries (a cfg file cannot hold negative literals)
+SignedA == {-7, -3, 2, 5}
+SignedB == {-9, -5, -1, 6}
+SignedC == {-7, 0, 5}
+SignedD == {-33, -5, 21, 42}
+SignedE == {-45, -28, 11, 26}
+SignedF == {-37, -3, 16}
 
 VARIABLES m, bn, p, pn
 
-K == 3
-G == 4
 Bgs == {<<1, 1, 0>>, <<3, 1, 0>>}
 RowsV == {<<x, y, NINF>> : x \in CellVals, y \in CellVals}
 Mats == UNION {[1..n -> RowsV] : n \in 2..MaxM}
+Pns(M, bd) == 1..(2 * Pow(bd, M) - 1)                      \* p = pn / (2 bd^M)
+
+\* The recorded execution that exposed the displaced window on the real code (thorough run, seed 1, history 302: DNA,
+\* M = 5, cells in 1/16, background (1,3,3,1)/8, p = 271 / (2 * 8^5)): substituted for Mats / Bgs / Pns in the
+\* configurations MC_TfmScore_witness (repaired window: holds) and MC_TfmScore_neg_offset_window (as coded: violated).
+WitnessMats == {<< <<42, 38, -33, 5, NINF>>, <<48, -45, -44, 26, NINF>>, <<-28, 16, 1, -5, NINF>>,
+                   <<-37, -30, 21, 11, NINF>>, <<0, -27, -37, -42, NINF>> >>}
+WitnessBgs == {<<1, 3, 3, 1, 0>>}
+WitnessPns(M, bd) == 265..277
 
 Init == m = <<>> /\ bn = <<>> /\ p = <<>> /\ pn = 0
 PickMatrix == /\ m = <<>>
               /\ \E mm \in Mats : m' = mm /\ p' \in Perms(mm, K)
               /\ bn' \in Bgs /\ pn' = 0
 PickP == /\ m # <<>> /\ pn = 0
-         /\ pn' \in 1..(2 * Pow(bn[1] + bn[2], Len(m)) - 1)
+         /\ pn' \in Pns(Len(m), PlainSum(bn, K))
          /\ UNCHANGED <<m, bn, p>>
 Next == PickMatrix \/ PickP
 Spec == Init /\ [][Next]_<<m, bn, p, pn>>
@@ -46,7 +67,7 @@ Marg(e) == IF NarrowMargin THEN (2 * e + G) \div (2 * G) ELSE Margin(e, G)     \
 
 Refines == (m # <<>> /\ pn # 0) =>
   LET M == Len(m)
-      bd == bn[1] + bn[2]
+      bd == PlainSum(bn, K)
       D == ConvDist(m, bn, K)
       \* initial window at g = 1/10: min = sum of row minima (0 after offsets), max = sum of row maxima + margin
       raw1 == IntRaw(m, p, K, 10, G)
@@ -54,8 +75,9 @@ Refines == (m # <<>> /\ pn # 0) =>
       e1 == ErrMaxG(m, p, K, 10, G)
       s1 == LookupScore(m, p, bn, bd, K, 10, G, pn, 2, 0, SuffixMax(im1, K, 1) + Marg(e1))
       \* second step at g = 1/100 over the window derived from the first threshold
-      mn2 == (s1.alpha - Marg(s1.e)) * 10
-      mx2 == (s1.alpha + Marg(s1.e)) * 10
+      off2 == PlainSum(Offs(IntRaw(m, p, K, 100, G), K), M)
+      mn2 == IF OffsetWindow THEN (s1.alpha - Marg(s1.e)) * 10 ELSE (s1.alpha - s1.offS - Marg(s1.e)) * 10 + off2
+      mx2 == IF OffsetWindow THEN (s1.alpha + Marg(s1.e)) * 10 ELSE (s1.alpha - s1.offS + Marg(s1.e)) * 10 + off2
       s2 == LookupScore(m, p, bn, bd, K, 100, G, pn, 2, mn2, mx2)
   IN /\ ~s1.panic
      /\ StepOK(D, M, 10, s1.alpha, s1.offS, Pow(bd, M))
